@@ -93,16 +93,6 @@ func (v *Vue) evaluate(ctx VueContext, nodes []*html.Node, depth int) ([]*html.N
 				continue
 			}
 
-			// Handle slot elements
-			if tag == "slot" {
-				slotResult, err := v.evalSlot(ctx, node, ctx.SlotScope, depth)
-				if err != nil {
-					return nil, err
-				}
-				result = append(result, slotResult...)
-				continue
-			}
-
 			// Handle v-if chains (v-if, v-else-if, v-else) early, even for templates
 			// This ensures v-if/v-else-if/v-else are processed before template attributes
 			if helpers.HasAttr(node, "v-if") {
@@ -119,6 +109,16 @@ func (v *Vue) evaluate(ctx VueContext, nodes []*html.Node, depth int) ([]*html.N
 			// Skip v-else-if and v-else if they appear without v-if
 			// (they should be handled as part of a chain)
 			if helpers.HasAttr(node, "v-else-if") || helpers.HasAttr(node, "v-else") {
+				continue
+			}
+
+			// Handle slot elements (a slot that carries v-if belongs to a chain and is handled above)
+			if tag == "slot" {
+				slotResult, err := v.evalSlot(ctx, node, ctx.SlotScope, depth)
+				if err != nil {
+					return nil, err
+				}
+				result = append(result, slotResult...)
 				continue
 			}
 
